@@ -8,6 +8,7 @@ package main
 
 import (
 	"bytes"
+	"encoding/binary"
 	"fmt"
 	"math/rand/v2"
 	"runtime"
@@ -143,6 +144,24 @@ func runHistory(run *vk.Run, idx uint64) {
 			return
 		}
 	}
+	// a publisher restart: from some picture on, the source sequence numbers continue more
+	// than 8192 away (in either direction): the forwarder re-synchronises there, and the
+	// count of withheld frames starts again
+	jumpAt := -1
+	if r.IntN(4) == 0 && len(src) > 60 {
+		b := len(src)/5 + r.IntN(len(src)*3/5)
+		for b < len(src) && (b == 0 || src[b].Pic == src[b-1].Pic) {
+			b++
+		}
+		if b < len(src) {
+			jump := 8193 + r.IntN(65536-2*8193)
+			for _, p := range src[b:] {
+				p.Ext += int64(jump)
+				binary.BigEndian.PutUint16(p.Bytes[2:4], p.Seqno())
+			}
+			jumpAt = b
+		}
+	}
 	w := vdown.NewWorld(codec, 256)
 	var trail []string
 	fail := func(key, what string) {
@@ -176,6 +195,11 @@ func runHistory(run *vk.Run, idx uint64) {
 			}
 			curPic = p.Pic
 			pics[curPic] = &picState{}
+		}
+		if k == jumpAt {
+			trail = append(trail, "source sequence numbers jump (publisher restart)")
+			withheldPics = 0
+			run.Count("histories_with_resynchronisation", 1)
 		}
 		st := pics[curPic]
 		st.sent++
